@@ -8,6 +8,7 @@
 (*   "tikz_events":[..],"tikz_losses":[..],"tikz_arrows":[..],               *)
 (*   "problems":[".."],"exc":""}                                            *)
 (*  {"op":"colours","in":{"ot"},"col":["",..],"drawn":[[gene,colour],..],    *)
+(*   "losses":[[object node below the lost edge, colour],..],                *)
 (*   "default":"000000"}                                                    *)
 (***************************************************************************)
 EXTENDS Drawing, Json, IOUtils, TLCExt
@@ -43,7 +44,11 @@ DrawingClauses(e) ==
 ColourClauses(e) ==
   LET ot == e.in.ot
       eff(u) == LET c == EffColour(ot, e.col, u) IN IF c = "" THEN e.default ELSE c
-  IN IF \E i \in DOMAIN e.drawn : e.drawn[i][2] # eff(e.drawn[i][1]) THEN {"ClauseColourScope"} ELSE {}
+      \* a loss marker lies on the edge above object node v: it carries the colour of
+      \* one end of that edge (the edge into a coloured root may have either)
+      lossOK(v, c) == c = eff(v) \/ (ot[v] # 0 /\ c = eff(ot[v])) \/ (ot[v] = 0 /\ c = e.default)
+  IN (IF \E i \in DOMAIN e.drawn : e.drawn[i][2] # eff(e.drawn[i][1]) THEN {"ClauseColourScope"} ELSE {})
+     \cup (IF \E i \in DOMAIN e.losses : ~lossOK(e.losses[i][1], e.losses[i][2]) THEN {"ClauseLossColourScope"} ELSE {})
 
 \* tex.measure on canned engine output: one box per text, in the order given
 \* {"op":"measure","texts":k,"sent":[[w,h,d],..],"got":[[w,h,d],..]}  (tenths of points)
